@@ -16,6 +16,16 @@ def units(tier):
                 us.append(Unit(H.AddIsoHybrid, {'efi': efi, 'mac': mac}))
     for (h, s) in geoms[:6]:
         us.append(Unit(H.RecordPadding, {'heads': h, 'sectors': s}))
+        us.append(Unit(H.UpdateEfi, {'heads': h, 'sectors': s}))
+    us.append(Unit(H.UpdateMac))
+    us.append(Unit(H.Crc32Step))
+    for mac in (False, True):
+        us.append(Unit(H.GPTRecordPrimary, {'mac': mac}))
+        us.append(Unit(H.GPTRecordSecondary, {'mac': mac}))
+    for n in (0, 1):
+        us.append(Unit(H.Crc32Whole, {'n': n}))
+    for plat, seen in ((0xef, 0), (0xef, 1), (0, 0)):
+        us.append(Unit(H.ReshuffleEltoritoEntry, {'platform': plat, 'seen': seen}))
     return us
 
 
@@ -24,3 +34,23 @@ def canaries(tier):
 
 
 META = {}
+
+META = {
+    'assumptions': [
+        'image sizes are whole 2048-byte sectors and the padded image is addressable with 32-bit 512-byte sector numbers (format limit of the MBR); part_offset*512 <= image size',
+        'E family: MBR layout obligations are generated per concrete geometry (quick: 6 boundary geometries; thorough: all 256x63 for the plain MBR) and are symbolic in every other field; _calc_cc itself is proved for symbolic geometry (non-linear arithmetic)',
+        'isohybrid.crc32 is used through its callee contract (pure 32-bit function of its bytes) in GPTHeader.record / GPT.record; the function itself is proved by the step lemma (all 2^32 x 2^8 state/byte pairs, bit-vector) + init/final units; the induction over the data length is the standard fold argument and is not machine-checked',
+        'GPT.new/uuid4: GUID bytes are unconstrained symbolic bytes',
+    ],
+    'out_of_reach': [
+        'that _write_fp writes hybrid data only in [0, 32768) and after space_size*lbs (frame over the output file) is part of C04/C12-pad composition and is not decided here',
+        'APM partition map contents (Apple partition records) are only covered by the C05 round-trip contracts',
+    ],
+    'bounded': [],
+}
+
+MANIFEST = {
+    'level_text': 'Proof (deductive): contracts from the C12 statement on the real ASTs of isohybrid.IsoHybrid.{_calc_cc, record, record_padding, new, update_rba, update_efi, update_mac}, GPT.record (primary and backup, with/without Mac), GPTHeader.record, crc32 (step lemma for every 32-bit state and byte), PyCdlib.add_isohybrid, and the El Torito placement loop body of PyCdlib._reshuffle_extents (mechanically extracted fragment). 0x55AA, exactly one active partition covering the cylinder-padded image, rba = 4 x boot sector, EFI/Mac partitions delimiting exactly the entry being placed in BOTH GPTs, header/array CRCs over the right bytes, mirror LBAs, padding to whole cylinders. Five defects found by failing obligations were repaired in /repo (see known_findings.json).',
+    'level_note': 'Trusted: pyvc (cross-checked per path against CPython, canary), z3/cvc5, struct model (validated each run). Geometry is an enumerated family for the layout obligations (quick run = boundary members, so the quick run does not claim the whole family). crc32 at call sites is an assumed-pure callee contract proved separately; induction over data length and the output-file frame are not machine-checked.',
+    'design_ref': 'DESIGN.md section 4 C12',
+}
